@@ -80,7 +80,7 @@ def balance(job, kind, mode, tier):
                "A, m0, dt > 0; 0 < x0 < 1; 273 < T0 < 400; division denominators on the path non-zero")
     for basis, program, n_curves, init_perm in configs(kind, mode, tier):
         for N in Ns:
-            ps = proc.ProcSetup(kind, mode, basis, program, N, n_curves=n_curves or 2, initial_permeances=bool(init_perm))
+            ps = proc.ProcSetup(kind, mode, basis, program, N, n_curves=n_curves or 2, initial_permeances=bool(init_perm), ncoef=5)
             dom = ps.domain()
             inputs = ps.inputs()
             fb = [dict(f) for f in realrun.proc_fallback(mode, program)]
@@ -123,13 +123,20 @@ def balance(job, kind, mode, tier):
                         job.prove(tag + "/component_balance/k%d" % k, cs, mk1 * pk1 != mk * pk - J1.t * A * dt, R_, inputs, fallback=fb)
                     job.twin_sat(tag + "/twin", cs)
                 if not got:
-                    job.vacuity["failed"].append(tag + ": no returning path")
+                    job.unreached(tag)
     # translator validation: the real model on floats satisfies what was just asserted symbolically
     for f in realrun.proc_fallback(mode)[:1]:
         if kind.startswith("non_ideal") and tier == "quick":
             continue
         r = concrete(dict(f, kind=kind, mode=mode, N=3, basis="weight"))
         job.validated("C01 %s %s" % (kind, mode), r["ok"], r["detail"])
+    # the real-arithmetic claim says nothing about how a float time grid is built: the same assertions are therefore also
+    # evaluated on the real code at step lengths that are not exact in binary (labelled as concrete points, not solver verdicts)
+    grids = ((3, 0.1), (7, 0.3)) if tier == "quick" else ((3, 0.1), (6, 0.2), (7, 0.3), (12, 0.1), (15, 0.7), (24, 0.05))
+    if mode == "vac" or tier == "thorough":
+        for (N, dt) in grids:
+            inp = dict(realrun.proc_fallback(mode)[0], kind=kind, mode=mode, N=N, dt=dt, A=0.01, basis="weight")
+            job.refute_concretely("C01/float_grid/%s/%s/N%d_dt%s" % (proc.SHORT[kind], mode, N, dt), R_, inp)
 
 
 JOB_TIMEOUT = {"quick": 400, "thorough": 3000}
